@@ -50,6 +50,9 @@ type Case struct {
 	// SrvOpt: server-option class of socket lanes ("", conn-timeout-small,
 	// conn-timeout-large, prefix). PaceMs: the client pauses that long
 	// between its messages. Members: gzip member layout of the body.
+	// CT: media type of HttpBody uploads (Content-Type) and downloads
+	// (Accept and HttpBody.content_type); "" = application/x-verif.
+	CT string `json:"body_content_type,omitempty"`
 	// B64: grpc-web-text request encoding ("" whole body, per-frame).
 	// Poison: before this stream, a call on the same mux fails in
 	// decompression.
@@ -185,6 +188,9 @@ func (c *Case) contentType() string {
 		return "application/json"
 	case "proto":
 		return "application/protobuf"
+	}
+	if c.CT != "" {
+		return c.CT // HttpBody lanes: media type of the raw body
 	}
 	return "application/x-verif"
 }
